@@ -22,6 +22,17 @@ def items(ctx, n=None):
         fs = [('del', gen.dformula(rng, atoms, rng.randint(1, 3), rng.randint(1, 3))) for _ in range(k)]
         fs = [f for f in fs if f[1][0] in ('dia', 'box')] or [('del', ('dia', ('skip',), ('atom', 'a')))]
         out.append((gen.context_program(rng, atoms), fs))
+    # fixed family: two formulas whose paths differ in the bracketing only (choice / sequence nested either way), in both orders
+    ctxp = [{'part': 'always', 'head': ('choice', ['a', 'b', 'c']), 'body': []}]
+    for leaves in ([('test', ('atom', 'a')), ('test', ('atom', 'b')), ('skip',)], [('patom', 'a'), ('skip',), ('patom', 'b')], [('skip',), ('test', ('atom', 'a')), ('patom', 'b')]):
+        x, y, z = leaves
+        for o1 in ('choice', 'seq'):
+            for o2 in ('choice', 'seq'):
+                p1, p2 = (o2, (o1, x, y), z), (o1, x, (o2, y, z))
+                for m in ('dia', 'box'):
+                    f1, f2 = ('del', (m, p1, ('atom', 'c'))), ('del', (m, p2, ('atom', 'c')))
+                    out.append((ctxp, [f1, f2]))
+                    out.append((ctxp, [f2, f1]))
     return out
 
 
